@@ -794,9 +794,12 @@ func (d *driver) finish(total int, slow []int, wall time.Duration) int {
 			"workers_spawned":     d.spawnN,
 			"cross_process_pairs": d.crossCompared,
 		},
-		"assumptions": p.Assumptions,
-		"wall_s":      wall.Seconds(),
-		"violations":  unlisted,
+		"assumptions": append([]string{
+			"the worker is rebuilt from /repo's working tree with build tag verif; cases are a deterministic function of (VERIF_SEED, property, tier, index)",
+			"a passing run means: held on the executions counted here, nothing more",
+		}, p.Assumptions...),
+		"wall_s":     wall.Seconds(),
+		"violations": unlisted,
 	}
 	if evals == 0 {
 		ev["coverage"].(map[string]any)["evaluations"] = executed
